@@ -369,4 +369,156 @@ theorem ParentheseConditions.hook_canon (n : Node) (x : Expect) (hx : x ∈ Cano
     | table tsp fs => simp [Doc.conditions] at hc
     | call c => simp [Doc.conditions] at hc
 
+/-! ### mixed_table -/
+
+theorem fieldRange_eq (f : Field) : DuplicateKeys.fieldRange f = Doc.fieldSpan f := by
+  cases f <;> rfl
+
+theorem Doc.mixedPairs_intro (f f' : Field) (g : Diag) (hk : Doc.isNoKey f ≠ Doc.isNoKey f')
+    (hg : g.primary = ⟨(Doc.fieldSpan f).first, (Doc.fieldSpan f').last⟩) :
+    (seen rest : List Field) → f ∈ seen → Doc.mixedPairs (seen ++ f' :: rest) g = true
+  | [], _, h => by simp at h
+  | a :: seen', rest, h => by
+    simp only [List.cons_append, Doc.mixedPairs, Bool.or_eq_true, List.any_eq_true]
+    rcases List.mem_cons.mp h with h | h
+    · subst h
+      exact Or.inl ⟨f', by simp, by simp [hk, hg]⟩
+    · exact Or.inr (Doc.mixedPairs_intro f f' g hk hg seen' rest h)
+
+theorem MixedTable.fields_sound : (fs : FieldList) → (seen : List Field) → (lk lnk : Option Nat) →
+    (∀ k, lk = some k → ∃ f ∈ seen, Doc.isNoKey f = false ∧ (Doc.fieldSpan f).first = k) →
+    (∀ k, lnk = some k → ∃ f ∈ seen, Doc.isNoKey f = true ∧ (Doc.fieldSpan f).first = k) →
+    (g : Diag) → g ∈ MixedTable.fields fs lk lnk → Doc.mixedPairs (seen ++ fs.toList) g = true
+  | .nil, _, _, _, _, _, g, h => by simp [MixedTable.fields] at h
+  | .cons f rest, seen, lk, lnk, hk, hnk, g, h => by
+    have step : ∀ (lk' lnk' : Option Nat),
+        (∀ k, lk' = some k → ∃ f0 ∈ seen ++ [f], Doc.isNoKey f0 = false ∧ (Doc.fieldSpan f0).first = k) →
+        (∀ k, lnk' = some k → ∃ f0 ∈ seen ++ [f], Doc.isNoKey f0 = true ∧ (Doc.fieldSpan f0).first = k) →
+        g ∈ MixedTable.fields rest lk' lnk' → Doc.mixedPairs (seen ++ (FieldList.cons f rest).toList) g = true := by
+      intro lk' lnk' h1 h2 hg
+      have := MixedTable.fields_sound rest (seen ++ [f]) lk' lnk' h1 h2 g hg
+      simpa [FieldList.toList] using this
+    have weaken : ∀ (o : Option Nat) (b : Bool),
+        (∀ k, o = some k → ∃ f0 ∈ seen, Doc.isNoKey f0 = b ∧ (Doc.fieldSpan f0).first = k) →
+        (∀ k, o = some k → ∃ f0 ∈ seen ++ [f], Doc.isNoKey f0 = b ∧ (Doc.fieldSpan f0).first = k) := by
+      intro o b h0 k hk0
+      obtain ⟨f0, hm, hp⟩ := h0 k hk0
+      exact ⟨f0, by simp [hm], hp⟩
+    cases f with
+    | noKey v =>
+      simp only [MixedTable.fields] at h
+      cases lk with
+      | some k =>
+        simp [MixedTable.diag] at h
+        obtain ⟨f0, hm, hf0, hfirst⟩ := hk k rfl
+        simp only [FieldList.toList]
+        exact Doc.mixedPairs_intro f0 (.noKey v) g (by rw [hf0]; simp [Doc.isNoKey]) (by subst hfirst; rw [h]; rfl) seen _ hm
+      | none =>
+        simp at h
+        exact step none (some v.span.first) (by simp) (by
+          intro k hk0
+          simp at hk0
+          exact ⟨.noKey v, by simp, by simp [Doc.isNoKey], by simp [Doc.fieldSpan, hk0]⟩) h
+    | exprKey sp kx vx =>
+      simp only [MixedTable.fields] at h
+      cases lnk with
+      | some k =>
+        simp [MixedTable.diag] at h
+        obtain ⟨f0, hm, hf0, hfirst⟩ := hnk k rfl
+        simp only [FieldList.toList]
+        exact Doc.mixedPairs_intro f0 _ g (by rw [hf0]; simp [Doc.isNoKey]) (by simp [h, hfirst, fieldRange_eq]) seen _ hm
+      | none =>
+        simp at h
+        exact step (some (DuplicateKeys.fieldRange (.exprKey sp kx vx)).first) none (by
+          intro k hk0
+          simp at hk0
+          exact ⟨.exprKey sp kx vx, by simp, by simp [Doc.isNoKey], by simp [← fieldRange_eq, hk0]⟩) (by simp) h
+    | nameKey sp kx vx =>
+      simp only [MixedTable.fields] at h
+      cases lnk with
+      | some k =>
+        simp [MixedTable.diag] at h
+        obtain ⟨f0, hm, hf0, hfirst⟩ := hnk k rfl
+        simp only [FieldList.toList]
+        exact Doc.mixedPairs_intro f0 _ g (by rw [hf0]; simp [Doc.isNoKey]) (by simp [h, hfirst, fieldRange_eq]) seen _ hm
+      | none =>
+        simp at h
+        exact step (some (DuplicateKeys.fieldRange (.nameKey sp kx vx)).first) none (by
+          intro k hk0
+          simp at hk0
+          exact ⟨.nameKey sp kx vx, by simp, by simp [Doc.isNoKey], by simp [← fieldRange_eq, hk0]⟩) (by simp) h
+    | unsupported sp =>
+      simp only [MixedTable.fields] at h
+      cases lnk with
+      | some k =>
+        simp [MixedTable.diag] at h
+        obtain ⟨f0, hm, hf0, hfirst⟩ := hnk k rfl
+        simp only [FieldList.toList]
+        exact Doc.mixedPairs_intro f0 _ g (by rw [hf0]; simp [Doc.isNoKey]) (by simp [h, hfirst, fieldRange_eq]) seen _ hm
+      | none =>
+        simp at h
+        exact step (some (DuplicateKeys.fieldRange (.unsupported sp)).first) none (by
+          intro k hk0
+          simp at hk0
+          exact ⟨.unsupported sp, by simp, by simp [Doc.isNoKey], by simp [← fieldRange_eq, hk0]⟩) (by simp) h
+
+theorem MixedTable.hook_sound (n : Node) (g : Diag) (h : g ∈ MixedTable.hook n) : Doc.mixedTable n g = true := by
+  cases n with
+  | table sp fs =>
+    simp only [MixedTable.hook] at h
+    have := MixedTable.fields_sound fs [] none none (by simp) (by simp) g h
+    simpa [Doc.mixedTable] using this
+  | expr e => simp [MixedTable.hook] at h
+  | stmt s => simp [MixedTable.hook] at h
+  | call c => simp [MixedTable.hook] at h
+
+/-- the loop state after a run of fields of one kind that ends with `f` -/
+def MixedTable.after (f : Field) : Option Nat × Option Nat :=
+  if Doc.isNoKey f then (none, some (Doc.fieldSpan f).first) else (some (Doc.fieldSpan f).first, none)
+
+def MixedTable.ofExpect (x : Expect) : Diag := MixedTable.diag x.primary.first x.primary.last
+
+theorem MixedTable.fields_canon : (rest : FieldList) → (f : Field) →
+    MixedTable.fields rest (MixedTable.after f).1 (MixedTable.after f).2 =
+      (ByValue.firstMixed (f :: rest.toList)).map MixedTable.ofExpect
+  | .nil, f => by simp [MixedTable.fields, FieldList.toList, ByValue.firstMixed]
+  | .cons f' rest, f => by
+    have ih := MixedTable.fields_canon rest f'
+    cases f <;> cases f' <;>
+      simp [MixedTable.fields, MixedTable.after, Doc.isNoKey, Doc.fieldSpan, fieldRange_eq, FieldList.toList,
+        ByValue.firstMixed, MixedTable.ofExpect, MixedTable.diag] at ih ⊢ <;> exact ih
+
+theorem MixedTable.hook_canon (n : Node) (x : Expect) (hx : x ∈ Canon.mixedTable n) :
+    ∃ g ∈ MixedTable.hook n, x.matches g = true := by
+  cases n with
+  | table sp fs =>
+    simp only [Canon.mixedTable, ByValue.mixedTable] at hx
+    cases fs with
+    | nil => simp [FieldList.toList, ByValue.firstMixed] at hx
+    | cons f rest =>
+      have h1 : MixedTable.fields (.cons f rest) none none = MixedTable.fields rest (MixedTable.after f).1 (MixedTable.after f).2 := by
+        cases f <;> simp [MixedTable.fields, MixedTable.after, Doc.isNoKey, Doc.fieldSpan, fieldRange_eq]
+      refine ⟨MixedTable.ofExpect x, ?_, ?_⟩
+      · simp only [MixedTable.hook, h1, MixedTable.fields_canon]
+        exact List.mem_map.mpr ⟨x, by simpa [FieldList.toList] using hx, rfl⟩
+      · have hsub : x.subStart = none := by
+          have : ∀ (l : List Field) (y : Expect), y ∈ ByValue.firstMixed l → y.subStart = none := by
+            intro l
+            induction l with
+            | nil => intro y hy; simp [ByValue.firstMixed] at hy
+            | cons a l ih =>
+              intro y hy
+              cases l with
+              | nil => simp [ByValue.firstMixed] at hy
+              | cons b l =>
+                simp only [ByValue.firstMixed] at hy
+                split at hy
+                · simp at hy; simp [hy]
+                · exact ih y hy
+          exact this _ x hx
+        simp [Expect.matches, MixedTable.ofExpect, MixedTable.diag, hsub]
+  | expr e => simp [Canon.mixedTable, ByValue.mixedTable] at hx
+  | stmt s => simp [Canon.mixedTable, ByValue.mixedTable] at hx
+  | call c => simp [Canon.mixedTable, ByValue.mixedTable] at hx
+
 end Selene.Lints
